@@ -108,7 +108,8 @@ def gen_plan(seed, index, tier="quick"):
         if any(t.get("ts_type") for t in base["cluster"]["topics"].values()):
             need[0] = max(need.get(0, 0), 2)
     elif kind == "consumer":
-        base = consumer_engine.gen_plan("C03", seed, sub, tier)
+        # plain logs (C03 shapes) or transactional logs at both isolation levels (C08 shapes)
+        base = consumer_engine.gen_plan("C03" if index % 16 < 8 else "C08", seed, sub, tier)
         base["faults"] = []
         base["cluster"].pop("api_versions", None)
         if base["consumer"]["kwargs"].get("isolation_level") == "read_committed":
@@ -125,8 +126,12 @@ def gen_plan(seed, index, tier="quick"):
         base["faults"], base["env"] = [], []
         need.update({0: 3, 10: 1})
     table = random_table(r, need)
+    by_node = None
+    if base["cluster"].get("brokers", 1) > 1 and r.random() < 0.5:
+        # a cluster in the middle of a rolling upgrade: every broker advertises its own ranges
+        by_node = {str(n): random_table(r, need) for n in range(1, base["cluster"]["brokers"] + 1)}
     return {"format": 1, "prop": PROP, "engine": "c11ride", "seed": base["seed"], "index": index,
-            "kind": kind, "base": base, "table": table}
+            "kind": kind, "base": base, "table": table, "by_node": by_node}
 
 
 # ------------------------------------------------------------------------------------
@@ -166,6 +171,8 @@ def execute(plan):
     rc = _run_base(kind, control)
     test = dict(plan["base"])
     test["cluster"] = dict(test["cluster"], api_versions=plan["table"])
+    if plan.get("by_node"):
+        test["cluster"]["api_versions_by_node"] = plan["by_node"]
     rt = _run_base(kind, test)
     res = rt
     res["subruns"] = 2
